@@ -300,6 +300,24 @@ def prove(name, hyps, goal, timeout_ms=30000, rounds=6, use_cvc5=True, quant_fre
             return Result(name, "proved", "z3", time.time() - t0, detail=f"after unifying {n_unified} provably equal exp/log arguments")
     has_tr0 = any(apps[k] for k in apps)
     if has_tr0 and quant_free:
+        # phase 0: generalise every exp/log/tanh/sqrt application to a fresh real (same application, same variable).
+        # If the obligation is valid in this generalised form it is valid (the functions are total on the proved-defined
+        # arguments): this decides pure routing / algebra obligations without touching the transcendental axioms.
+        sub = []
+        n_ = 0
+        for fam in ("EXP", "LOG", "TANH", "SQRT"):
+            for t in apps[fam].values():
+                sub.append((_UF[fam](t), z3.Real(f"uf!{fam}!{n_}")))
+                n_ += 1
+        # innermost applications may occur inside arguments of others: substitute repeatedly, outermost first is fine
+        # because z3.substitute works on the DAG simultaneously; nested ones simply stay as they are inside a variable.
+        s0 = z3.Solver()
+        s0.set("timeout", int(min(timeout_ms, 5000)))
+        s0.add(*[z3.substitute(h, *sub) for h in base])
+        s0.add(z3.Not(z3.substitute(goal, *sub)))
+        if s0.check() == z3.unsat:
+            return Result(name, "proved", "z3", time.time() - t0, detail="transcendental applications generalised to free variables")
+    if has_tr0 and quant_free:
         # phase 1: light axiom set (signs, inverse laws, monotonicity, product laws) under a short budget
         s1 = z3.Solver()
         s1.set("timeout", int(min(timeout_ms, 8000)))
